@@ -3,7 +3,7 @@
 
   `It.nextI`, `It.prevI`, `matchInputI`, `matchLookaheadI`, `matchBacktrackI` run the code of `It.next`, `It.prev`,
   `matchInput`, `matchLookahead`, `matchBacktrack` (Gsub.lean, the line-by-line models of ot_layout_gsubgpos.rs) and return, next
-  to the result, the list of buffer indices whose glyph was READ (`Rd.inp i` = `buffer.info[i]`, `Rd.out j` = `out_info()[j]`),
+  to the result, the list of buffer indices whose glyph was READ (`Rd.inp i` = `buffer.info[i]`, `Rd.out j` / `Rd.lig j` = `out_info()[j]`),
   including the ignored glyphs that were stepped over and the glyph that made the matcher stop.  The `*_erase` theorems show that
   forgetting the list gives exactly the plain function — so nothing new is trusted: every statement about the reads of the
   instrumented matcher is a statement about the one run of the plain matcher.
@@ -18,8 +18,9 @@ open RbModel RbModel.Buf RbModel.Mem
 
 /-- one read of a glyph: of the in-buffer (`buffer.info[i]`) or of the out-buffer (`buffer.out_info()[j]`) -/
 inductive Rd where
-  | inp (i : Nat)
-  | out (j : Nat)
+  | inp (i : Nat)   -- `buffer.info[i]`, read by the skipping iterator going forward (input, lookahead) or as `cur()`
+  | out (j : Nat)   -- `buffer.out_info()[j]`, read by the skipping iterator going backward (backtrack)
+  | lig (j : Nat)   -- `buffer.out_info()[j]`, read by the lig-base scan of match_input (`while j > 0 && lig_id(out[j-1]) == …`)
   deriving DecidableEq, Repr
 
 /-- why `match_input` returned: it matched; `count > MAX_CONTEXT_LENGTH`; the skipping iterator found no (matching) glyph;
@@ -70,11 +71,11 @@ def findLigBaseI (out : List Info) (firstLigId : Nat) : Nat → M ((Bool × Nat)
   | j + 1 => do
       let x ← get out j
       if ligId x == firstLigId then
-        if ligComp x == 0 then pure ((true, j), [.out j])
+        if ligComp x == 0 then pure ((true, j), [.lig j])
         else do
           let (r, rs) ← findLigBaseI out firstLigId j
-          pure (r, .out j :: rs)
-      else pure ((false, j + 1), [.out j])
+          pure (r, .lig j :: rs)
+      else pure ((false, j + 1), [.lig j])
 
 /-- the ligature-component rules of match_input for one matched component `this`:
     `none` = `return false`, `some lb` = go on with `ligbase = lb`; with the out-buffer reads of the lig-base scan -/
@@ -484,7 +485,7 @@ theorem It.prevI_span (f : Font) (out : List Info) : ∀ (fuel : Nat) (it : It) 
 
 /-- the lig-base scan reads out-buffer glyphs below `n` only -/
 theorem findLigBaseI_span (out : List Info) (fl : Nat) : ∀ (n : Nat) (r : Bool × Nat) (rs : List Rd),
-    findLigBaseI out fl n = .ok (r, rs) → ∀ x ∈ rs, ∃ j, x = .out j ∧ j < n := by
+    findLigBaseI out fl n = .ok (r, rs) → ∀ x ∈ rs, ∃ j, x = .lig j ∧ j < n := by
   intro n
   induction n with
   | zero =>
@@ -520,7 +521,7 @@ theorem findLigBaseI_span (out : List Info) (fl : Nat) : ∀ (n : Nat) (r : Bool
 
 /-- the ligature-component rules read out-buffer glyphs only -/
 theorem ligStepI_span (c : Ctx) (it : It) (fl fc : Nat) (this : Info) (lb : Nat) (o : Option Nat) (rs : List Rd)
-    (h : ligStepI c it fl fc this lb = .ok (o, rs)) : ∀ x ∈ rs, ∃ j, x = .out j ∧ j < c.buf.outLen := by
+    (h : ligStepI c it fl fc this lb = .ok (o, rs)) : ∀ x ∈ rs, ∃ j, x = .lig j ∧ j < c.buf.outLen := by
   unfold ligStepI at h
   split at h
   · split at h
@@ -555,7 +556,7 @@ theorem ligStepI_span (c : Ctx) (it : It) (fl fc : Nat) (this : Info) (lb : Nat)
     glyph of the lig-base scan -/
 def RdOk (c : Ctx) (lo : Nat) (R : MatchInI) (x : Rd) : Prop :=
   (∃ i, x = .inp i ∧ lo < i ∧ i < c.buf.len ∧ (R.why ≠ .ligComp → i < R.r.endPos)) ∨
-  (∃ j, x = .out j ∧ j < c.buf.outLen)
+  (∃ j, x = .lig j ∧ j < c.buf.outLen)
 
 theorem matchInputI.loop_span (c : Ctx) (fl fc : Nat) : ∀ (rest : Nat) (it : It) (p : List Nat) (t lb k : Nat)
     (R : MatchInI), matchInputI.loop c fl fc it p t lb k rest = .ok R → it.bufLen = c.buf.len → it.idx < c.buf.len →
@@ -638,7 +639,7 @@ theorem matchInputI.loop_span (c : Ctx) (fl fc : Nat) : ∀ (rest : Nat) (it : I
     ligature-component rules — lies below the reported `end_position`; or an out-buffer glyph of the lig-base scan -/
 def Covered (c : Ctx) (R : MatchInI) (x : Rd) : Prop :=
   (∃ i, x = .inp i ∧ c.buf.idx ≤ i ∧ i < c.buf.len ∧ (R.why ≠ .ligComp → i < R.r.endPos)) ∨
-  (∃ j, x = .out j ∧ j < c.buf.outLen)
+  (∃ j, x = .lig j ∧ j < c.buf.outLen)
 
 /-- **the reads of match_input lie in `[idx, end_position)`** (and in the out-buffer for the lig-base scan); the three
     ligature-component `return false` paths report `end_position = 0` (never written) -/
